@@ -46,7 +46,7 @@ MIN_REACH = {
     "harvester_reaps_naming_a_merge_policy": {"quick": 30, "thorough": 100},
     "sampler_crops_whose_table_does_not_exist_yet": {"quick": 30, "thorough": 100},
     "harvester_crops_whose_results_are_all_nan": {"quick": 8, "thorough": 30},
-    "harvester_crops_whose_harvester_is_chunked": {"quick": 25, "thorough": 250},
+    "harvester_crops_whose_harvester_is_chunked": {"quick": 25, "thorough": 80},
 }
 TIME_BUDGET = {"quick": 400, "thorough": 3400}
 
